@@ -149,7 +149,10 @@ def run_variant(v):
                     hit = True
         out['status'] = 'killed' if hit else ('fail-closed' if out.get('fail_closed') else ('fired-elsewhere' if fired_any else 'missed'))
     else:
-        errs = [pid for pid, r in out['results'].items() if r.get('analysis_error')]
+        # `inconclusive_ok`: properties for which this variant is known to rewrite an anchor beyond recognition (einsum built from a mutated
+        # operand list, outer product by broadcasting): the check must then stop with an analysis error (exit 2), never with a violation
+        errs = [pid for pid, r in out['results'].items() if r.get('analysis_error') and pid not in v.get('inconclusive_ok', [])]
+        out['inconclusive'] = [pid for pid, r in out['results'].items() if r.get('analysis_error') and pid in v.get('inconclusive_ok', [])]
         out['status'] = 'silent' if (not fired_any and not errs) else ('false-alarm' if fired_any else 'analysis-error')
     return out
 
